@@ -177,6 +177,20 @@ func (g *c03Gen) mk(name, digest string, stack *c03Node, d, d2 []byte, assign fu
 		}
 	}
 	c.Ops = ops
+	// consumers on top of the same stack
+	if g.rnd.Chance(1, 3) {
+		c.Ops = append(c.Ops, fmt.Sprintf("x:%s:%d", id, len(d)))
+		if g.rnd.Chance(1, 3) {
+			c.Ops = append(c.Ops, fmt.Sprintf("x:%s:%d", id, len(d)+1-2*g.rnd.Intn(2)))
+		}
+	}
+	if g.rnd.Chance(1, 3) && c03Verifying(stack) {
+		null := make([]byte, []int{1, len(d), 64}[g.rnd.Intn(3)])
+		c.Ops = append(c.Ops, fmt.Sprintf("r:%s:%s:%s:%d", id, c03ID(null), vh.Hex(null), len(d)))
+		if g.rnd.Chance(1, 4) { // the null chunk itself: served from memory whatever the store holds
+			c.Ops = append(c.Ops, fmt.Sprintf("r:%s:%s:%s:%d", c03ID(null), c03ID(null), vh.Hex(null), len(null)))
+		}
+	}
 	return c
 }
 
